@@ -536,6 +536,17 @@ func c13reset(p *Prog, r *Report) {
 				okM = false
 			}
 		}
+		if len(cs) == 0 {
+			// the setter written in place: a store into / through the field with the block's round
+			fld := map[string]string{"setLastConsensusRound": "LastConsensusRound", "setRoundLowerBound": "roundLowerBound"}[m]
+			if fv := p.Field(HG, "Hashgraph", fld); fv != nil {
+				for _, st := range storesIntoField(reset, fv) {
+					if flowsFromCall(st.Val, named(HG+".Block.RoundReceived"), 0) {
+						okM = true
+					}
+				}
+			}
+		}
 		r.Check(okM, rule, "Reset:"+m+"(block.RoundReceived())", p.pos(reset.Pos()), fnName(reset), "consensus resumes above the anchor round", "Reset does not call "+m+" with the anchor block's round")
 	}
 	// InsertFrameEvent seeds the caches from the frame values
@@ -613,6 +624,16 @@ func c13resetfields(p *Prog, r *Report) {
 					// must be on every path to the success return: dominates some success return
 					for _, rp := range p.succRets(fn, errNil, 0) {
 						if dominates(w.Instr, rp.ret) {
+							written = true
+						}
+					}
+				}
+			}
+			if !written {
+				// a pointer field assigned through the pointer: *x.f = v
+				for _, st := range storesIntoField(fn, fv) {
+					for _, rp := range p.succRets(fn, errNil, 0) {
+						if dominates(st, rp.ret) {
 							written = true
 						}
 					}
@@ -728,4 +749,21 @@ func firstRoundRule(p *Prog, r *Report, rule string) {
 			}
 		}
 	}
+}
+
+// storesIntoField: the stores in fn whose address is field fv itself or the pointer loaded from it.
+func storesIntoField(fn *ssa.Function, fv *types.Var) []*ssa.Store {
+	var res []*ssa.Store
+	for _, b := range fn.Blocks {
+		for _, in := range b.Instrs {
+			if st, ok := in.(*ssa.Store); ok {
+				if f, _ := fieldOf(st.Addr); f == fv {
+					res = append(res, st)
+				} else if fa, isFA := st.Addr.(*ssa.FieldAddr); isFA && fieldVar(fa.X.Type(), fa.Field) == fv {
+					res = append(res, st)
+				}
+			}
+		}
+	}
+	return res
 }
